@@ -202,6 +202,10 @@ func (f *Frame) execCallStmt(call *ast.CallExpr, st *State, k func(*State, []Val
 			}
 		}
 	}
+	if alt, ok := contractAlias[key]; ok && in.W.contractFor(alt) != nil {
+		in.note("calls to " + key + " use the contract of " + alt + " (property configuration)")
+		key = alt
+	}
 	sig := fn.Type().(*types.Signature)
 	args := f.evalArgs(call, sig, st)
 	f.callN++
@@ -766,7 +770,15 @@ func (f *Frame) applyContract(c *Contract, fn *types.Func, recv Val, args []Val,
 			env2.vars[n] = v
 		}
 		if isErrorType(rt) {
-			env2.vars["err"] = v
+			isParam := false
+			for _, n := range names.params {
+				if n == "err" {
+					isParam = true
+				}
+			}
+			if !isParam {
+				env2.vars["err"] = v
+			}
 		}
 	}
 	if len(results) == 1 {
